@@ -73,7 +73,8 @@ static inline carquet_schema_t* build_schema(const Table& t, carquet_status_t* s
 }
 
 // abort_after >= 0: call carquet_writer_abort after that many writer calls (instead of continuing)
-static inline WriteOutcome run_writer(const gen::WritePlan& p, const std::string& path, int abort_after = -1, FILE** user_stream_out = nullptr) {
+// on_error: 0 keep calling to the end (close), 1 abort right after the first non-OK call, 2 close right after it
+static inline WriteOutcome run_writer(const gen::WritePlan& p, const std::string& path, int abort_after = -1, FILE** user_stream_out = nullptr, int on_error = 0) {
     WriteOutcome o; o.path = path;
     carquet_status_t st;
     carquet_schema_t* schema = build_schema(p.table, &st);
@@ -117,14 +118,18 @@ static inline WriteOutcome run_writer(const gen::WritePlan& p, const std::string
             std::unique_ptr<int16_t[]> defs;
             if (b.pass_def) { defs.reset(new int16_t[b.count ? b.count : 1]); for (int64_t i = 0; i < b.count; i++) defs[(size_t)i] = ch.def[(size_t)(b.start + i)]; }
             note(cq::writer_write_batch(w, b.col, pk->buf.get(), b.count, defs.get(), nullptr));
+            if (!ok && on_error) break;
         }
+        if (!ok && on_error) break;
         if (aborted) break;
         if (g + 1 < p.rgs.size() || p.explicit_new_rg_last) {
             if (abort_after >= 0 && call >= abort_after) { aborted = true; break; }
             note(cq::writer_new_row_group(w));
+            if (!ok && on_error) break;
         }
     }
     if (abort_after >= 0 && call >= abort_after) aborted = true;
+    if (!ok && on_error == 1) aborted = true;
     if (aborted) { cq::writer_abort(w); }
     else { o.close_status = cq::writer_close(w); note(o.close_status); }
     o.calls = call;
@@ -230,6 +235,15 @@ static inline void compare_chunk(const ReadChunk& got, const Chunk& want, const 
         SIM_CHECK(got.ch.vals[i] == want.vals[i], "read.value_mismatch", "%s rg%d col%d (%s): non-null value #%zu read %s, written %s", where, rg, col,
                   type_name(c.type), i, sim::hex(got.ch.vals[i].data(), got.ch.vals[i].size(), 24).c_str(),
                   sim::hex(want.vals[i].data(), want.vals[i].size(), 24).c_str());
+}
+
+// after a reported error: whatever was delivered before it must still be a correct prefix of the chunk
+static inline void compare_chunk_prefix(const ReadChunk& got, const Chunk& want, const Col& c, const char* where, int rg, int col) {
+    SIM_CHECK(got.ch.def.size() <= want.def.size(), "read.row_count", "%s rg%d col%d: %zu entries delivered, chunk has %zu", where, rg, col, got.ch.def.size(), want.def.size());
+    for (size_t i = 0; i < got.ch.def.size(); i++) SIM_CHECK(got.ch.def[i] == want.def[i], "read.null_positions", "%s rg%d col%d (%s): def level of row %zu is %d, file says %d (rows delivered before an error)", where, rg, col, type_name(c.type), i, got.ch.def[i], want.def[i]);
+    SIM_CHECK(got.ch.vals.size() <= want.vals.size(), "read.value_count", "%s rg%d col%d: too many values", where, rg, col);
+    for (size_t i = 0; i < got.ch.vals.size(); i++) SIM_CHECK(got.ch.vals[i] == want.vals[i], "read.value_mismatch", "%s rg%d col%d (%s): value #%zu delivered before an error is %s, file says %s", where, rg, col, type_name(c.type), i,
+        sim::hex(got.ch.vals[i].data(), got.ch.vals[i].size(), 24).c_str(), sim::hex(want.vals[i].data(), want.vals[i].size(), 24).c_str());
 }
 
 // metadata + schema + full content of an opened reader against the model table (non-empty row groups only)
